@@ -18,7 +18,7 @@ claim("C01",
       "The end-to-end obligation is decided as step lemmas over the real code: (1) fan-out of admitted alerts to every live subscriber in order (map order of subscribers explored); (2) insert-or-create never "
       "loses an alert while flush/destroy/maintenance interleave; (3) the real aggregation-group run loop on a virtual clock: first flush <= group_wait after ingestion (at once for old alerts), every later flush "
       "exactly one group_interval after the previous tick, whatever the deliveries do (deliver, fail, hang until the deadline), every flush lists the firing alert; (4) with the receiver's real stage and the real "
-      "notification log, failing deliveries record nothing and every following interval retries until one succeeds, after which the unchanged group is quiet; (5) behind the real fan-out a rejecting or hanging integration never keeps a slow but healthy sibling from being sent and recording the notification; (6) composition: the real provider, Dispatcher.Run and the real pipeline from PipelineBuilder.New (silencer, inhibitor, dedup, retry, real silences and nflog) assembled: an alert put at an arbitrary moment, optionally silenced for a symbolic time, is notified within max(group_wait, group_interval) plus one interval per failed flush, never while silenced, exactly once.",
+      "notification log, failing deliveries record nothing and every following interval retries until one succeeds, after which the unchanged group is quiet; (5) behind the real fan-out a rejecting or hanging integration never keeps a slow but healthy sibling from being sent and recording the notification; (6) composition: the real provider, Dispatcher.Run and the real pipeline from PipelineBuilder.New (silencer, inhibitor, dedup, retry, real silences and nflog) assembled: an alert put at an arbitrary moment, optionally silenced for a symbolic time, is notified within max(group_wait, group_interval) plus one interval per failed flush, never while silenced, exactly once; with a routing tree exactly the receivers the documented rule selects are notified; (7) when the group's membership changes between flushes, every firing alert is in the latest notification (never left out because the group looks unchanged).",
       "The composition harness runs one fixed fair schedule (run to block, oldest runnable next) with timer settings from a grid; HTTP, config reload and a cluster wait > 0 are outside; bounds: 2-4 alerts, 2 subscribers, 3-4 flushes, 1 route, preemption bound 1 (quick) / 2. "
       "The must-notify direction of the dedup decision is C04's oracle. " + TRUSTED, "4 C01")
 claim("C02",
